@@ -219,7 +219,7 @@ class Prov:
                     path = tuple(e[1] for e in lhs[1:] if e != "*" and e[0] == "f")
                     out.add(("partial", path, frozenset(o)) if path else ("unknown", "call-into-proj"))
             elif kind == "mutcall":
-                out.add(("call", bi, x["f"].get("def"), x["f"].get("inst")))
+                out.add(("call", bi, norm(x["f"].get("def")), x["f"].get("inst")))
             elif kind == "setdiscr":
                 pass
         if not out:
